@@ -31,6 +31,60 @@ def shard_items(w, n):
     return [w * 100 + i for i in range(n)]
 
 
+class CollateBad:
+    """collate_fn that raises on batches containing a marked value"""
+
+    def __init__(self, bad):
+        self.bad = set(bad)
+
+    def __call__(self, batch):
+        items = batch if isinstance(batch, list) else [batch]
+        if any(x in self.bad for x in items):
+            raise KeyError(f"collate refuses {items}")
+        return batch
+
+
+class InitBad:
+    """worker_init_fn that raises in the given workers"""
+
+    def __init__(self, workers):
+        self.workers = set(workers)
+
+    def __call__(self, wid):
+        if wid in self.workers:
+            raise OSError(f"init of worker {wid} failed")
+
+
+class IterErrClass(tud.IterableDataset):
+    """iterator CLASS (not a generator) that raises at given items and can go on afterwards"""
+
+    def __init__(self, sizes, bad):
+        self.sizes, self.bad = sizes, set(bad)
+
+    def __iter__(self):
+        wi = tud.get_worker_info()
+        w = wi.id if wi else 0
+        items = shard_items(w, self.sizes[w]) if wi else [x for i, n in enumerate(self.sizes) for x in shard_items(i, n)]
+        return _ErrIt(items, self.bad)
+
+
+class _ErrIt:
+    def __init__(self, items, bad):
+        self.items, self.bad, self.i = items, bad, 0
+
+    def __iter__(self):
+        return self
+
+    def __next__(self):
+        if self.i >= len(self.items):
+            raise StopIteration
+        self.i += 1
+        x = self.items[self.i - 1]
+        if x in self.bad:
+            raise ValueError(f"bad item {x}")
+        return x
+
+
 class IterPlain(tud.IterableDataset):
     """no state_dict: resume is by fast-forward"""
 
@@ -272,11 +326,22 @@ def batches_ref(cfg, epoch=0):
 
 
 def kill_children():
-    for p in multiprocessing.active_children():
+    """Reap whatever a case left behind. torch's SIGCHLD handler raises RuntimeError in the main thread when a worker that is
+    still registered dies, so the kill and the reaping happen inside a try that absorbs exactly that."""
+    import gc
+    for _ in range(4):
         try:
-            p.kill()
-        except Exception:
-            pass
+            gc.collect()
+            ch = multiprocessing.active_children()
+            if not ch:
+                return
+            for p in ch:
+                p.kill()
+            for p in ch:
+                p.join(1.0)
+            time.sleep(0.02)
+        except RuntimeError:
+            continue
 
 
 # ------------------------------------------------------------------ abstraction of iterator state / state dicts
@@ -335,7 +400,7 @@ def norm_batch(b):
     return b if isinstance(b, list) else [b]
 
 
-def run_history(cfg, ops, choices):
+def run_history(cfg, ops, choices, exc_types=None):
     """Drives real loaders through ops under the arrival schedule `choices`. Returns (obs, used schedule, saved state dicts)."""
     sched = Schedule(choices)
     dl, it, saved, obs = None, None, [], []
@@ -354,6 +419,8 @@ def run_history(cfg, ops, choices):
                 out = "assert"
             except Exception as e:  # noqa
                 out = "err"
+                if exc_types is not None:
+                    exc_types.append(type(e).__name__)
             obs.append([out, abs_iter(it), abs_state_dict(dl.state_dict(), cfg)])
         elif o[0] == "state":
             sd = dl.state_dict()
